@@ -50,6 +50,19 @@ def one_process(case, timeout=20):
     return next(read_ndjson(pout))
 
 
+
+def vh_guarded(v, args, part):
+    """run the harness; a harness process that dies (stack overflow, abort: not catchable in-process) is a violation of
+    `never panics`, not a tool error. Returns False if it died."""
+    p = vh(args, check=False)
+    if p.returncode != 0:
+        tail = (p.stderr or "")[-600:]
+        what = "stack overflow" if "overflowed its stack" in tail else "abnormal termination (status %d)" % p.returncode
+        v.violation("field:the process evaluating the operations died: %s" % what, {"part": part, "batch": args[1], "stderr": tail})
+        return False
+    return True
+
+
 def run(tier):
     v = Verdict("C16", tier, "model_checking")
     wd = os.path.join(vlib.BUILD, "work", "c16")
@@ -71,7 +84,8 @@ def run(tier):
         raise vlib.ToolError("LAWS line missing")
     laws = laws[0]
     out = os.path.join(wd, "field.out")
-    vh(["field", gen.cases_path, out])
+    if not vh_guarded(v, ["field", gen.cases_path, out], "A"):
+        return v.finish({"evaluations": 0, "distinct_nontrivial": 0, "rule": "aborted: the harness process died in part A"})
     nA = nops = nontriv = 0
     for case, got in zip(read_ndjson(gen.cases_path), read_ndjson(out)):
         nA += 1
@@ -102,7 +116,8 @@ def run(tier):
             meta.append((cname, law, str(r)))
     rin, rout = os.path.join(wd, "real.in"), os.path.join(wd, "real.out")
     write_ndjson(rin, rcases)
-    vh(["field-real", rin, rout])
+    if not vh_guarded(v, ["field-real", rin, rout], "B"):
+        return v.finish({"evaluations": nA, "distinct_nontrivial": nontriv, "rule": "aborted: the harness process died in part B (boundary laws at the real primes)"})
     for c, (cname, law, want), got in zip(rcases, meta, read_ndjson(rout)):
         nB += 1
         if "panic" in got:
@@ -160,7 +175,8 @@ def run(tier):
             rel.append({"rel": 1, "a": str(a), "b": str(b), "p": str(p), "curve": cname})
     qin, qout = os.path.join(wd, "rel.in"), os.path.join(wd, "rel.out")
     write_ndjson(qin, rel)
-    vh(["field", qin, qout])
+    if not vh_guarded(v, ["field", qin, qout], "B-rel"):
+        return v.finish({"evaluations": nA + nB, "distinct_nontrivial": nontriv, "rule": "aborted: the harness process died in part B-rel"})
     for c, got in zip(rel, read_ndjson(qout)):
         if "panic" in got:
             v.violation("field:relation panics", {"part": "B-rel", "case": c, "real": got})
